@@ -114,7 +114,7 @@ func c17Doc(r *fw.Rand) (*docdid.Doc, []c17Key, string) {
 		shape += "s"
 	}
 	if r.Chance(1, 3) {
-		d.AlsoKnownAs = genPick(r, gen.URIPool, r.Range(1, 2))
+		d.AlsoKnownAs = gen.PickURIs(r, r.Range(1, 2))
 		shape += "a"
 	}
 	return d, keys, shape
